@@ -103,32 +103,40 @@ class _StubDB:
 
 
 def check_universe(acc: Acc, hist: Sequence[Key], root: int, where: str) -> None:
+    """One table fed the history key by key; as soon as the root pumps, the rule set is
+    extracted after *every* further insertion from the same table (extract, insert, extract
+    again -- what a search does), each time against the universe inserted so far."""
     from comb_spec_searcher.rule_db.forest import ForestRuleExtractor, TableMethod
 
     if not pumps(hist, root):
         return
     tm = TableMethod()
-    for k in hist:
-        tm.add_rule_key(fk(k))
     payload = {"kind": "universe", "root": root, "history": [[k[0], list(k[1]), list(k[2]), k[3]] for k in hist]}
-    acc.count("evaluations")
-    if not tm.is_pumping(root):
-        acc.violation("table-not-pumping", "TableMethod.is_pumping", where, f"universe {list(hist)}: root {root} pumps by the oracle but not in the table", payload)
-        return
-    try:
-        with deadline(20):
-            ex = ForestRuleExtractor(root, _StubDB(tm), None, None)
-            ex.check()
-    except Exception as e:  # noqa: BLE001
-        acc.violation("exception", call_site(e), where, f"universe {list(hist)}: {type(e).__name__}: {str(e)[:200]}", payload)
-        return
-    needed = [unfk(f) for f in ex.needed_rules]
-    for p in extraction_problems(hist, needed, root)[:2]:
-        clause = ("not-minimal" if p.startswith("not minimal") else "needless-reverse" if "reverse" in p else
-                  "not-productive" if "not productive" in p else "not-closed")
-        acc.violation(clause, "ForestRuleExtractor._minimize", where, f"universe {list(hist)} root {root}: extracted {needed}: {p}", payload)
+    for i, k in enumerate(hist):
+        tm.add_rule_key(fk(k))
+        sofar = list(hist[: i + 1])
+        if not pumps(sofar, root):
+            continue
+        acc.count("evaluations")
+        if not tm.is_pumping(root):
+            acc.violation("table-not-pumping", "TableMethod.is_pumping", where, f"universe {sofar}: root {root} pumps by the oracle but not in the table", payload)
+            return
+        try:
+            with deadline(20):
+                ex = ForestRuleExtractor(root, _StubDB(tm), None, None)
+                ex.check()
+        except Exception as e:  # noqa: BLE001
+            acc.violation("exception", call_site(e), where, f"universe {sofar}: {type(e).__name__}: {str(e)[:200]}", payload)
+            return
+        needed = [unfk(f) for f in ex.needed_rules]
+        for p in extraction_problems(sofar, needed, root)[:2]:
+            clause = ("not-minimal" if p.startswith("not minimal") else "needless-reverse" if "reverse" in p else
+                      "not-productive" if "not productive" in p else "not-closed")
+            acc.violation(clause, "ForestRuleExtractor._minimize", where,
+                          f"universe {sofar} root {root} (extraction after insertion {i + 1} of {len(hist)} on one table): extracted {needed}: {p}", payload)
+            return
+        acc.outcome(tuple(sorted(needed)))
     acc.nt(tuple(sorted(hist)))
-    acc.outcome(tuple(sorted(needed)))
 
 
 def _worker_universes(arg) -> Acc:
